@@ -489,21 +489,29 @@ func genValid(c *Ctx) {
 	ops := []int{opPut0, opPut2, opPutWrongID, opRepNewest, opRep1, opRep2, opRepFail0, -1}
 	maxLen := 3
 	if c.Thorough {
-		maxLen = 5
+		maxLen = 4
 	}
 	type step struct {
 		adv int64
 		op  int
 	}
-	var alphabet []step
+	var full, reduced []step
 	for _, a := range advances {
 		for _, o := range ops {
-			alphabet = append(alphabet, step{a, o})
+			full = append(full, step{a, o})
+			if a != 1 && o != opPutWrongID && o != opRep2 {
+				reduced = append(reduced, step{a, o})
+			}
 		}
 	}
 	for _, auto := range []bool{false, true} {
 		for _, gci := range []val.V{val.L(), val.L(val.Z(0)), val.L(val.Z(1)), val.L(val.Z(25))} {
 			for length := 1; length <= maxLen; length++ {
+				// 32 steps up to length 3; beyond that (thorough tier) the 18-step alphabet, or the space explodes
+				alphabet := full
+				if length > 3 {
+					alphabet = reduced
+				}
 				idx := make([]int, length)
 				for {
 					g := &histGen{auto: auto}
